@@ -143,7 +143,25 @@ Theorem add_command_one_command_per_process : forall J c J' b,
   add_command J c = (J', b) -> NoDup (map c_proc (j_current J' ++ j_planned J')).
 Proof. exact add_command_one_command_per_process. Qed.
 
+(* the two local facts bundled under the name of the design *)
+Theorem no_duplicate_request :
+  (forall d s local L M prule J c, c_stopped c = false -> process_job d s local L M prule J c = Ok Skipped)
+  /\ (forall J c c0,
+        In c0 (j_current J ++ j_planned J) -> c_proc c0 = c_proc c ->
+        (c_target c = None \/ c_target c0 = c_target c) -> add_command J c = (J, false)).
+Proof. exact no_duplicate_request. Qed.
+
 (* ---- refutations = known findings ------------------------------------------------------------------------------------- *)
+(* the full-strength statement of start_target_eligible for ALL_INSTANCES (any pending requests that include the job's
+   own) is FALSE of the model of the current code: H_own_requests_are_all cannot be dropped *)
+Theorem start_target_eligible_refuted :
+  ~ (forall s local L M prule J c all t,
+       nodes_nodup L = true -> nodes_consistent L = true -> layout_wf L (load_requests J) = true -> c_target c = None ->
+       (forall m, node_req L (load_requests J) m <= node_req L all m) ->
+       process_job D_ALL_INSTANCES s local L M prule J c = Ok (Sent t) ->
+       request_ok (mkView L M prule (c_known c) (c_disabled c) (c_load c) all) t = true).
+Proof. exact start_target_eligible_refuted. Qed.
+
 (* B: the job's own requests are not all the pending requests: 60 pending + 60 requested on one node *)
 Theorem cross_application_pending_load_refuted :
   exists s local L M prule J c all t,
